@@ -281,7 +281,7 @@ func vfTimerCase(c *kit.Case) {
 
 func TestVerifC04C(t *testing.T) {
 	logx.Disable()
-	kit.Run(t, "C04", "zrpc-client", kit.N(200, 4000), vfCase)
-	kit.Run(t, "C04", "zrpc-client-timer", kit.N(60, 1500), vfTimerCase)
+	kit.Run(t, "C04", "zrpc-client", kit.N(3000, 40000), vfCase)
+	kit.Run(t, "C04", "zrpc-client-timer", kit.N(300, 5000), vfTimerCase)
 	kit.End()
 }
